@@ -40,7 +40,7 @@ git -C /repo checkout -- . ; git -C /repo status --porcelain | head -3
 mkdir -p $V/seeded/$NAME
 cp "$SRC/patch.diff" "$SRC/demo_test.go" $V/seeded/$NAME/
 [ -f "$SRC/NOTES.md" ] && cp "$SRC/NOTES.md" $V/seeded/$NAME/
-needs=$(grep -i -m1 -A2 'manifest' "$SRC/NOTES.md" 2>/dev/null | tr '\n"' '  ' | cut -c1-400)
+needs=$(grep -i -m1 -A2 'manifest' "$SRC/NOTES.md" 2>/dev/null | tr '\n"\\' '   ' | cut -c1-400)
 cat > $V/seeded/$NAME/meta.json <<EOF
 {
  "property": "$PROP",
